@@ -129,6 +129,22 @@ Definition sinkWrite (s : store) (it : witem) (now a0 rnd : Z) : store * list Z 
     else (s, [])
   end.
 
+Definition cWAIT : Z := 4.
+
+(* drainWrite: the maintenance loop took the first n queued items as one batch; it sinks the
+   events in order and only then releases every Wait marker found in the batch.
+   Output: notifications, then -5, then the released waiters in order. *)
+Fixpoint sink_batch (items : list witem) (s : store) (now a0 rnd : Z) (notes waiters : list Z) : store * list Z :=
+  match items with
+  | [] => (s, notes ++ [-5] ++ waiters)
+  | it :: r =>
+      if wcode it =? cWAIT then sink_batch r s now a0 rnd notes (waiters ++ [wsid it])
+      else let '(s', o) := sinkWrite s it now a0 rnd in sink_batch r s' now a0 rnd (notes ++ o) waiters
+  end.
+Definition drain_batch (s : store) (n now a0 rnd : Z) : store * list Z :=
+  let k := Z.to_nat n in
+  sink_batch (firstn k (queue s)) (set_queue s (skipn k (queue s))) now a0 rnd [] [].
+
 (* deliver the i-th queued event *)
 Definition sink_nth (s : store) (i now a0 rnd : Z) : store * list Z :=
   match nth_error (queue s) (Z.to_nat i) with
@@ -297,7 +313,9 @@ Definition newStore (cap wcap pcap now : Z) : store :=
    [8;k;now;a0;h;err;v;cost;ttl;dk] loading Get -> [code; value]  (1 hit, 0 loaded, 2 loader error, 3 closed)
    [9]                     Close
    [10;now]                the ticker refreshes the cached clock
-   [11;k;now]              the wheel visits a live entry on a stale deadline reading *)
+   [11;k;now]              the wheel visits a live entry on a stale deadline reading
+   [12;w]                  Wait: waiter w queues its marker
+   [13;n;now;a0;rnd]       the maintenance loop drains a batch of n items -> notifications, -5, released waiters *)
 Definition st_step (s : store) (op : list Z) : store * list Z :=
   match op with
   | [0; k; now; a0] => sget s k now a0
@@ -311,6 +329,8 @@ Definition st_step (s : store) (op : list Z) : store * list Z :=
   | [8; k; now; a0; h; err; v; cost; ttl; dk] => sload s k now a0 h (negb (err =? 0)) v cost ttl (negb (dk =? 0))
   | [9] => (set_closed (set_smap s []) true, [])
   | [10; now] => (set_nowc s now, [])
+  | [12; w] => (if sclosed s then s else send s (mkW cWAIT w 0 false false 0), [])
+  | [13; n; now; a0; rnd] => drain_batch s n now a0 rnd
   | [11; k; now] =>
       match map_get (smap s) k with
       | Some id => removeEntry (set_whl s (deschedule (whl s) id)) id reasonEXPIRED now
